@@ -17,10 +17,18 @@ RNorm(n, d) == LET s == IF d < 0 THEN -1 ELSE 1
                    g == GCD(Abs(n), Abs(d))
                IN  IF n = 0 THEN <<0, 1>> ELSE <<(s * n) \div g, (s * d) \div g>>
 RInt(n)      == <<n, 1>>
-RAdd(a, b)   == RNorm(a[1] * b[2] + b[1] * a[2], a[2] * b[2])
-RSub(a, b)   == RNorm(a[1] * b[2] - b[1] * a[2], a[2] * b[2])
-RMul(a, b)   == RNorm(a[1] * b[1], a[2] * b[2])
-RDiv(a, b)   == RNorm(a[1] * b[2], a[2] * b[1])
+\* operands are cross-reduced before multiplying so that intermediates stay inside TLC's 32-bit
+\* integers whenever the normalised result does (an overflow is a TLC error, never a silent wrap)
+RAdd(a, b)   == LET g == GCD(a[2], b[2])
+                IN  RNorm(a[1] * (b[2] \div g) + b[1] * (a[2] \div g), (a[2] \div g) * b[2])
+RSub(a, b)   == LET g == GCD(a[2], b[2])
+                IN  RNorm(a[1] * (b[2] \div g) - b[1] * (a[2] \div g), (a[2] \div g) * b[2])
+RMul(a, b)   == LET g1 == GCD(Abs(a[1]), b[2])
+                    g2 == GCD(Abs(b[1]), a[2])
+                    h1 == IF g1 = 0 THEN 1 ELSE g1
+                    h2 == IF g2 = 0 THEN 1 ELSE g2
+                IN  RNorm((a[1] \div h1) * (b[1] \div h2), (a[2] \div h2) * (b[2] \div h1))
+RDiv(a, b)   == RMul(a, IF b[1] < 0 THEN <<-b[2], -b[1]>> ELSE <<b[2], b[1]>>)
 RNeg(a)      == <<-a[1], a[2]>>
 RLess(a, b)  == a[1] * b[2] < b[1] * a[2]
 RLeq(a, b)   == a[1] * b[2] <= b[1] * a[2]
